@@ -116,12 +116,26 @@ def _resolved(e: ast.AST, defs: Dict[str, ast.AST]) -> ast.AST:
 # ---------------------------------------------------------------------------
 
 
+def _surely_bool(e: ast.AST) -> bool:
+    """*e* evaluates to True or False whatever its operands are (`in` / `is` tests, `not x`, `bool(x)`)."""
+    if isinstance(e, ast.UnaryOp) and isinstance(e.op, ast.Not):
+        return True
+    if isinstance(e, ast.Compare) and all(isinstance(o, (ast.In, ast.NotIn, ast.Is, ast.IsNot)) for o in e.ops):
+        return True
+    return isinstance(e, ast.Call) and isinstance(e.func, ast.Name) and e.func.id == "bool" and len(e.args) == 1 and not e.keywords
+
+
 def _canon(e: ast.AST) -> Tuple[ast.AST, bool]:
     """(positive form, polarity) of a leaf test: `a not in b`, `a is b`, `a != b`, `not a` are the
     negations of `a in b`, `a is not b`, `a == b`, `a`."""
     if isinstance(e, ast.UnaryOp) and isinstance(e.op, ast.Not):
         p, pol = _canon(e.operand)
         return p, not pol
+    if isinstance(e, ast.Compare) and len(e.ops) == 1 and isinstance(e.ops[0], (ast.Is, ast.IsNot, ast.Eq, ast.NotEq)) and isinstance(e.comparators[0], ast.Constant) and isinstance(e.comparators[0].value, bool) and _surely_bool(e.left):
+        # `(a in b) is True` (a lowered `match <test>: case True:`) says what `a in b` says: the left side is a bool
+        p, pol = _canon(e.left)
+        same = isinstance(e.ops[0], (ast.Is, ast.Eq)) == e.comparators[0].value
+        return p, pol if same else not pol
     if isinstance(e, ast.Compare) and len(e.ops) == 1:
         flip = {ast.NotIn: ast.In, ast.Is: ast.IsNot, ast.NotEq: ast.Eq}
         for neg, pos in flip.items():
